@@ -20,13 +20,16 @@
      Bitmap.*_o                 AtomicBitmap / BaseSlice operations; bm_inv = what AtomicBitmap::new builds
      Suite.C14.exec14           the four stream transfers on slice / region / guest memory with a scripted stream *)
 From VM Require Import Prelude.MachInt Prelude.Outcome.
-From VM Require Impl.Address Impl.Volatile Impl.VolMem Impl.Guest Impl.Bitmap.
+From VM Require Impl.Address Impl.Volatile Impl.VolMem Impl.Guest Impl.Bitmap Impl.Io Impl.IoGuest Impl.IoEnd.
 From VM Require Spec.C01 Spec.C14 Suite.C14 Proofs.C02 Proofs.C14.
-From VM Require Proofs.C07Geom Proofs.C07Data Proofs.C07Bitmap Proofs.C07Guest.
+From VM Require Proofs.C07Geom Proofs.C07Data Proofs.C07Bitmap Proofs.C07Guest Proofs.C07Own Proofs.C07Copy Proofs.C13.
 From VM Require Import Spec.C07 Suite.C07 Proofs.C07.
 
-(* the assembled model - one call of any of the 58 entry points on any of the 8 target kinds (the 8th: a bitmap
-   created and then ENLARGED by any k with byte_size + k < 2^64), any
+(* the assembled model - one call of any of the 74 entry points on any of the 9 target kinds (the 8th: a bitmap
+   created and then ENLARGED by any k with byte_size + k < 2^64; the 9th: the VolatileSlice ByteValued::as_bytes()
+   gives over an object; entry points 61-64: the four stream transfers with the crate's OWN adapters - &[u8],
+   &mut [u8], Vec<u8>, Cursor<_> at ANY position, File - as the stream; 65-69 the typed bulk copies incl. element
+   sizes 3 and 16; 70-76 nested BaseSlice views and the Option<B> bitmap), any
    well-formed layout / container / bitmap of ANY size, any arguments, both build profiles -
    satisfies the checker: every call returns a value or an error value; the only panics are the
    documented ones (array index >= element count; checked_align_up with a non power of two) *)
@@ -217,8 +220,82 @@ Proof. exact C07Bitmap.new_enlarge_inv_lemma. Qed.
 
 (* ... hence ONE operation of any kind on it returns (class 0), whatever arguments it is given *)
 Theorem C07_bitmap_enlarged_ops_total : forall m bs ps k op a b c,
-  50 <= op <= 58 -> 0 < ps -> bs + k < W64 -> a < W64 -> bitmap_enl_cls m bs ps k op a b c <= 1.
-Proof. exact bitmap_enl_cls_le. Qed.
+  (50 <= op <= 58 \/ 70 <= op <= 76) -> 0 < ps -> bs + k < W64 -> a < W64 -> bitmap_enl_cls m bs ps k op a b c <= 1.
+Proof. exact bitmap_enl_cls_le2. Qed.
+
+(* views: BaseSlices nested to ANY depth (chain = the slice_at offsets, any usize values: they add up with
+   wrapping_add) over the bitmap itself, over Some(bitmap), None and (): mark_dirty / dirty_at return *)
+Theorem C07_bitmap_views_total : forall b r chain off len, Bitmap.bm_inv b -> off < W64 ->
+  (exists b', Bitmap.view_mark_o r chain b off len = Val b') /\ (exists v, Bitmap.view_dirty_at_o r chain b off = Val v).
+Proof. exact bitmap_views_total_lemma. Qed.
+
+
+(* ---------------------------------------------------------------- stream entry points with the crate's own adapters *)
+(* read_volatile_from / read_exact_volatile_from / write_volatile_to / write_all_volatile_to on a VolatileSlice, a
+   GuestRegionMmap and a GuestMemoryMmap (ANY list of regions - no assumption on it), with each adapter of src/io.rs
+   as the stream (IoEnd.own_exec dispatches to the adapter's OWN exact method where it overrides the default loop),
+   every start address and count, every endpoint content and position: the call returns within
+   (bytes of the target) + 2 units of fuel, in both build profiles.  own_P: a Cursor's position and data length are
+   u64 values (ANY position - also past the end); a Vec<u8> and the target fit usize together; nothing else *)
+Theorem C07_own_streams_total : forall md fuel t x s m addr count, count < W64 -> C07Own.own_P x (IoEnd.tbytes t) s ->
+  (N.to_nat (IoEnd.tbytes t) < fuel)%nat -> exists v, IoEnd.own_exec md fuel t x s m addr count = Val v.
+Proof. exact C07Own.own_exec_total_lemma. Qed.
+
+(* a Cursor at or past its end (any position up to u64::MAX): a read yields 0 bytes, an exact read of a non-empty
+   buffer UnexpectedEof, a write accepts 0 bytes (hence write_all: WriteZero); state and memory untouched *)
+Theorem C07_cursor_past_end : forall md st m v, Proofs.C13.cur_ok st -> C1314List.nlen (Io.s_data st) <= Io.s_pos st ->
+  Io.cursor_read_volatile md st m v = Val ((st, m), Io.Ok 0) /\
+  (Io.cursor_read_exact_volatile md st m v =
+     if 0 <? Io.vs_len v then Val ((st, m), Io.Err (Io.VIo Io.EUnexpectedEof)) else Val ((st, m), Io.Ok tt)) /\
+  Io.cursor_write_volatile md st m v = Val ((st, m), Io.Ok 0).
+Proof. exact C07Own.cursor_past_end_lemma. Qed.
+
+(* what the proofs need of a stream, and that every adapter meets it: each call returns, keeps the endpoint's
+   invariant, never reports EINTR, never claims more than the buffer holds; so do the exact methods *)
+Theorem C07_own_endpoints_good : forall md fuel,
+  (forall k, C07Own.good_call (C07Own.rd_P k) (IoEnd.rd_call md k)) /\
+  (forall k, C07Own.good_call (C07Own.wr_P k) (IoEnd.wr_call md k)) /\
+  (forall k, C07Own.good_exact (C07Own.rd_P k) fuel (IoEnd.rd_exact md fuel k)) /\
+  (forall k, C07Own.good_exact (C07Own.wr_P k) fuel (IoEnd.wr_all md fuel k)).
+Proof. exact C07Own.own_endpoints_good_lemma. Qed.
+
+(* the DEFAULT read_exact_volatile / write_all_volatile loops (io.rs:56-78, :102-124) over ANY such stream return
+   within (bytes of the buffer) + 1 rounds *)
+Theorem C07_default_exact_loops_total : forall (S : Type) (P : N -> S -> Prop),
+  (forall B B' s, B' <= B -> P B s -> P B' s) ->
+  forall call : Io.callT S, C07Own.good_call P call ->
+  forall zerr fuel, C07Own.good_exact P fuel (Io.exact_volatile zerr fuel call).
+Proof. exact @C07Own.exact_volatile_good. Qed.
+
+(* try_access as transcribed for the stream methods (Impl/IoGuest.v), for ANY list of regions and ANY callback that
+   returns and reports at most what it was asked for: returns within (bytes of all regions) + 1 rounds *)
+Theorem C07_io_try_access_total : forall (S : Type) (Q : N -> S -> Prop) md L count addr (f : IoGuest.cbT S),
+  count < W64 ->
+  (forall cur total len region s m, Q cur s -> In region L -> IoGuest.contains region cur = true ->
+     len <= IoGuest.g_len region - (cur - IoGuest.g_start region) -> len < W64 ->
+     exists s' m' r, f total len (cur - IoGuest.g_start region) region s m = Val ((s', m'), r) /\
+       match r with IoGuest.GOk n => n <= len /\ Q (cur + n) s' | IoGuest.GErr _ => True end) ->
+  forall fuel cur total s m, Q cur s -> total <= count ->
+  (N.to_nat (Suite.C14.total_len L - C07Own.Vb L cur) < fuel)%nat ->
+  exists v, IoGuest.try_access md fuel L count addr f cur total s m = Val v.
+Proof. exact @C07Own.io_try_access_total. Qed.
+
+(* ---------------------------------------------------------------- typed bulk copies *)
+(* VolatileSlice::copy_to / copy_from::<T> on a slice of at most isize::MAX bytes: return for EVERY element size
+   (1, 3, 16, sizes that do not divide the slice, 0) and every buffer: no division by zero, the internal
+   get_array_ref(0, size / size_of::<T>()).unwrap() never fires *)
+Theorem C07_slice_copies_total : forall m h s t buf, VolMem.vs_size s <= ISZ_MAX ->
+  (exists v, VolMem.vs_copy_to m h s t buf = Val v) /\ (exists v, VolMem.vs_copy_from m h s t buf = Val v).
+Proof. exact C07Copy.slice_copies_total_lemma. Qed.
+
+(* get_array_ref::<T>(offset, n) with ANY offset and element count (huge counts answer TooBig / OutOfBounds), then
+   copy_to / copy_from / copy_to_volatile_slice: all return - len() * element_size() never overflows *)
+Theorem C07_array_copies_total : forall m h s t buf a n slice,
+  (exists e, VolMem.vs_get_array_ref s (VolMem.ty_size t) a n = Val (VolMem.Err e)) \/
+  (exists arr, VolMem.vs_get_array_ref s (VolMem.ty_size t) a n = Val (VolMem.Ok arr) /\
+     (exists v, VolMem.va_copy_to m h arr t buf = Val v) /\ (exists v, VolMem.va_copy_from m h arr t buf = Val v) /\
+     (exists v, VolMem.va_copy_to_volatile_slice m h arr (VolMem.ty_size t) slice = Val v)).
+Proof. exact C07Copy.array_then_copies_total. Qed.
 
 (* ---------------------------------------------------------------- the other documented panic *)
 (* checked_align_up panics exactly when the alignment fails the code's own power-of-two test
@@ -246,6 +323,18 @@ Example C07_nonvacuous :
   (* 64 pages enlarged by 64 pages and one byte: 129 pages in 3 words; set_bit of the last page returns *)
   (let c := {| q_mode := Debug; q_tgt := 7; q_par := [262144; 4096; 262145]; q_op := 52; q_ty := 0; q_a := 128;
                q_b := 0; q_c := 0; q_x := [] |} in
+   wf07 c = true /\ small07 c = true /\ run_C07 c = 0) /\
+  (* guest-level write_all_volatile_to into a Cursor<&mut [u8]> of 16 bytes positioned at u64::MAX: an error value *)
+  (let c := {| q_mode := Debug; q_tgt := 3; q_par := [0; 16; 4096; 32]; q_op := 64; q_ty := 0; q_a := 4;
+               q_b := 8; q_c := 0; q_x := [4; 16; 18446744073709551615] |} in
+   wf07 c = true /\ small07 c = true /\ run_C07 c = 1) /\
+  (* read_volatile_from out of a Cursor<&[u8]> one past its end into a region: 0 bytes, a success value *)
+  (let c := {| q_mode := Release; q_tgt := 2; q_par := [4096; 64]; q_op := 61; q_ty := 0; q_a := 0;
+               q_b := 18446744073709551615; q_c := 0; q_x := [3; 5; 6] |} in
+   wf07 c = true /\ small07 c = true /\ run_C07 c = 0) /\
+  (* copy_to::<[u8;3]> out of a 61-byte slice (20 elements and one byte left over) *)
+  (let c := {| q_mode := Debug; q_tgt := 0; q_par := [3; 61]; q_op := 65; q_ty := 4; q_a := 0;
+               q_b := 61; q_c := 25; q_x := [] |} in
    wf07 c = true /\ small07 c = true /\ run_C07 c = 0).
 Proof. vm_compute. repeat split. Qed.
 
@@ -278,3 +367,11 @@ Print Assumptions C07_bitmap_new_enlarge_inv.
 Print Assumptions C07_bitmap_enlarged_ops_total.
 Print Assumptions C07_align_up_panic_iff.
 Print Assumptions C07_pow2_accepted.
+Print Assumptions C07_bitmap_views_total.
+Print Assumptions C07_own_streams_total.
+Print Assumptions C07_cursor_past_end.
+Print Assumptions C07_own_endpoints_good.
+Print Assumptions C07_default_exact_loops_total.
+Print Assumptions C07_io_try_access_total.
+Print Assumptions C07_slice_copies_total.
+Print Assumptions C07_array_copies_total.
